@@ -72,6 +72,14 @@ func c19Rect(c *mon.Ctx, s exact.Seg) {
 	if r.Min != gpt(mn) || r.Max != gpt(mx) {
 		c.Violation("segrect", "Segment.Rect", c19Case{Op: "Rect", A: [2]jpt{jp(s.A), jp(s.B)}, Got: fmt.Sprint(r), Exp: fmt.Sprint(gpt(mn), gpt(mx))})
 	}
+	// Move translates both end points (exact deltas)
+	g := gseg(s)
+	for _, d := range [][2]float64{{3, -2}, {-0.5, 1024}, {0, 0.0625}} {
+		mv := g.Move(d[0], d[1])
+		if mv.A.X != g.A.X+d[0] || mv.A.Y != g.A.Y+d[1] || mv.B.X != g.B.X+d[0] || mv.B.Y != g.B.Y+d[1] {
+			c.Violation("segmove", "Segment.Move", c19Case{Op: "Move", A: [2]jpt{jp(s.A), jp(s.B)}, Got: fmt.Sprint(mv), Exp: fmt.Sprint(d)})
+		}
+	}
 }
 
 func c19Run(c *mon.Ctx) {
